@@ -3389,6 +3389,8 @@ impl GraphEngine {
             "_edges",
             TensorValue::Pointers(edges.iter().map(ToString::to_string).collect()),
         );
+        #[cfg(feature = "neumann_verif")]
+        tensor_store::verif_hooks::point("graph:adj_rmw");
         self.store.put(key, tensor)?;
         Ok(())
     }
@@ -6448,6 +6450,8 @@ impl GraphEngine {
             // Remove legacy field if present
             let edge_key = format!("e{edge_id}");
             tensor.remove(&edge_key);
+            #[cfg(feature = "neumann_verif")]
+            tensor_store::verif_hooks::point("graph:adj_rmw");
             self.store.put(key, tensor)?;
         }
         Ok(())
